@@ -412,7 +412,8 @@ class Ownership(Machine):
         owner = self._pick(("owner", "value"), op["i"])
         if owner is None or owner.kind in gen.IMAGE_KINDS:
             return
-        if owner.groups and getattr(owner, "had_dim", owner.d) != owner.d:
+        m0 = owner.obj.landmarks
+        if m0.n_groups and m0.n_dims != owner.obj.n_dims:
             return   # the manager does not compare its groups with the owner's own dimensionality (not claimed)
         t = gen.homog_transform(["Affine", "Similarity", "Translation", "Rotation"][op["how"] % 4], op["seed"], owner.d)
         try:
